@@ -20,6 +20,13 @@ type W[T any] struct {
 	E      T      `edgepoint:"e"`
 }
 
+// Air: tags that are not camelCase (a key derived from the tag must be the tag, verbatim)
+type Air struct {
+	CO2  float64 `point:"CO2"`
+	PM25 float64 `point:"PM25"`
+	Temp float64 `point:"temp"`
+}
+
 type Flat struct {
 	A int     `point:"a"`
 	B string  `point:"b"`
@@ -473,6 +480,9 @@ func allKindsT(thorough bool) []kind {
 		mkKind("map[string]string", mapsOf(nil, map[string]string{"a": "x"}, map[string]string{"a": ""}, map[string]string{"a": "y"}, map[string]string{"a": "x", "b": "y"}, map[string]string{"0": "z"}, map[string]string{"é": "✓"}), func() map[string]string { return map[string]string{"k": "seven", "0": "eight"} }),
 		mkKind("map[string]bool", mapsOf(nil, map[string]bool{"a": true}, map[string]bool{"a": false}, map[string]bool{"a": true, "b": false}), func() map[string]bool { return map[string]bool{"k": true} }),
 		mkKind("map[string]float64", mapsOf(nil, map[string]float64{"a": 1.5}, map[string]float64{"a": 0}, map[string]float64{"a": math.Inf(1), "b": -2}), func() map[string]float64 { return map[string]float64{"k": 7} }),
+		mkKind("*struct(capital tags)", []func() *Air{func() *Air { return nil }, func() *Air { return &Air{} }, func() *Air { return &Air{CO2: 415, PM25: 12.5} }, func() *Air { return &Air{Temp: 21} }}, func() *Air { return &Air{CO2: 7, PM25: 7, Temp: 7} }),
+		mkKind("struct(capital tags)", cs(Air{}, Air{CO2: 415}, Air{PM25: 12.5, Temp: 21}), func() Air { return Air{7, 7, 7} }),
+		mkKind("[]int(spare capacity)", slicesOf(nil, []int{1}, []int{1, 2, 3}), func() []int { s := make([]int, 2, 8); s[0], s[1] = 7, 8; return s }),
 		mkKind("map[string]*int", pmapsOf(nil, map[string]int{"a": 1}, map[string]int{"a": 0}, map[string]int{"a": 1, "b": 2}, map[string]int{"a": 2, "b": 1, "c": 3}, map[string]int{"b": 2}), func() map[string]*int { x := 7; return map[string]*int{"k": &x} }),
 		mkKind("map[string]*string", pmapsOf(nil, map[string]string{"a": "x"}, map[string]string{"a": "x", "b": "y"}, map[string]string{"a": "y", "b": ""}), func() map[string]*string { x := "seven"; return map[string]*string{"k": &x} }),
 		mkKind("map[NamedKey]int", []func() map[NamedKey]int{func() map[NamedKey]int { return nil }, func() map[NamedKey]int { return map[NamedKey]int{"a": 1} }, func() map[NamedKey]int { return map[NamedKey]int{"a": 2, "b": 0} }, func() map[NamedKey]int { return map[NamedKey]int{"0": 5} }}, func() map[NamedKey]int { return map[NamedKey]int{"k": 7} }),
